@@ -20,7 +20,7 @@ def insertSorted (a : Nat) : List Nat → List Nat
   | [] => [a]
   | b :: t => if a ≤ b then a :: b :: t else b :: insertSorted a t
 
-def sortIds (l : List Nat) : List Nat := l.foldl (fun acc a => insertSorted a acc) []
+def sortIds (l : List Nat) : List Nat := l.mergeSort (fun a b => decide (a ≤ b))
 
 def idsStr {R : Type} (l : List (Item R)) : String :=
   if l.isEmpty then "-" else ",".intercalate ((sortIds (l.map (·.id))).map toString)
@@ -61,6 +61,9 @@ def stepT (num? : String → Option α) (t : Tree (Rect α)) (ws : List String) 
       (t', stateStr t')
     | _, _, _, _, _ => (t, "bad-op")
   | ["reorg"] => let t' := t.reorganize fuel; (t', stateStr t')
+  | ["state"] => (t, stateStr t)
+  -- a query with a panicking / inconsistent matcher: queries do not change the tree, whatever the matcher does
+  | "pprobe" :: _ => (t, "done")
   | ["clear"] => let t' := t.clear; (t', stateStr t')
   | ["thr", k] =>
     match k.toInt? with
